@@ -14,9 +14,10 @@ open Cm Cm.Cli Cm.Fs
 
 /-! ## vocabulary -/
 
-/-- two items agree up to a declaration's value -/
+/-- two items agree up to a declaration's value - and of the value, the comments written inside it agree too -/
 theorem sameItem_iff (a b : Item) : sameItem a b ↔
-    (∃ d e, a = .decl d ∧ b = .decl e ∧ d.name = e.name ∧ d.lowerName = e.lowerName ∧ d.important = e.important) ∨
+    (∃ d e, a = .decl d ∧ b = .decl e ∧ d.name = e.name ∧ d.lowerName = e.lowerName ∧ d.important = e.important ∧
+      d.comments = e.comments) ∨
     (∃ t ok, a = .other t ok ∧ b = .other t ok) := by
   cases a <;> cases b <;> simp [sameItem]
 
@@ -59,6 +60,19 @@ theorem setDeclValue_sameShape (items : List Item) (i : Nat) (v : Str) : sameSha
 theorem setDeclValue_getElem? (items : List Item) (k : Nat) (v : Str) (i : Nat) :
     (setDeclValue items k v)[i]? = (items[i]?).map fun it => if i = k then setVal v it else it :=
   Cm.Cli.setDeclValue_getElem? items k v i
+
+/-- `comments_in_values_kept`: the rewritten value is the new colour followed by the comments the old value
+    contained, and the declaration's record of those comments is untouched (so a second rewrite keeps them too) -/
+theorem comments_in_values_kept (d : Decl) (v : Str) :
+    setVal v (.decl d) = .decl { d with value := v ++ d.comments } ∧
+    ∀ w, setVal w (setVal v (.decl d)) = .decl { d with value := w ++ d.comments } := ⟨rfl, fun _ => rfl⟩
+
+/-- `color: rgb(50%, 50%, 50%) /* brand */` rewritten to `#757575` reads `#757575/* brand */` -/
+example :
+    setDeclValue [.decl { name := "color".toList, lowerName := "color".toList, value := " rgb(50%, 50%, 50%) /* brand */".toList,
+                          important := false, comments := "/* brand */".toList }] 0 "#757575".toList =
+      [.decl { name := "color".toList, lowerName := "color".toList, value := "#757575/* brand */".toList,
+               important := false, comments := "/* brand */".toList }] := by decide
 
 /-- one rule: the returned declaration list has the shape of the list the tool looked at -/
 theorem processRule_sameShape (env : CliEnv) (cfg : Cfg) (top : Option Nat) (sel : Str) (items0 : List Item) (st : St)
